@@ -5,7 +5,7 @@ import json
 import sys
 
 ALPHABET = [0, 1, 1.0, True, False, "a", "", None, [], [0], [False], [1, "a"], [[0]], [[False]], {}, {"a": 0}, {"a": False},
-            {"a": 0, "b": 1}, {"b": 1, "a": 0}, 2 ** 53, 2 ** 53 + 1, float(2 ** 53), [1], [1.0], [True]]
+            {"a": 0, "b": 1}, {"b": 1, "a": 0}, 2 ** 53, 2 ** 53 + 1, float(2 ** 53), [1], [1.0], [True], {"b": 0}, {"a": 0, "c": 1}]
 
 
 def search(job):
